@@ -44,7 +44,8 @@ mod harness {
     }
     fn any_ls() -> LastState { unsafe { NOW = kani::any(); } LastState::new(any_vh()) }
     fn any_req() -> ProveRequest { ProveRequest::new(any_ls(), packed::GetLastStateProof(kani::any())) }
-    fn any_ps() -> ProveState { ProveState::new_from_request(any_req(), Vec::new(), Vec::new()) }
+    /// a prove state the peer already holds may itself sit on an earlier fork switch (children inherit the reorg headers)
+    fn any_ps() -> ProveState { let mut re = Vec::new(); if kani::any() { re.push(HeaderView { id: kani::any(), number: kani::any(), ..Default::default() }); } ProveState::new_from_request(any_req(), re, Vec::new()) }
     fn any_state() -> PeerState {
         let t: u8 = kani::any(); kani::assume(t >= 1 && t <= 7);
         match t {
@@ -68,6 +69,7 @@ mod harness {
         let nre: usize = kani::any(); kani::assume(nre <= 2);
         let mut reorg = Vec::new(); let mut i = 0; while i < 2 { if i < nre { reorg.push(HeaderView { id: kani::any(), number: kani::any(), ..Default::default() }); } i += 1; }
         let ps = ProveState::new_from_request(any_req(), reorg, Vec::new());
+        let prev_on_fork = peers.inner.get(&PeerIndex(0)).unwrap().state.get_prove_state().map(|p| !p.get_reorg_last_headers().is_empty()).unwrap_or(false);
         let r = peers.update_prove_state(PeerIndex(0), ps);
         let p0 = peers.inner.get(&PeerIndex(0)).unwrap();
         if r.is_ok() {
@@ -79,5 +81,6 @@ mod harness {
         assert!(!p1.latest_block_filter_hashes.cleared && p1.latest_block_filter_hashes.n == n1, "SPEC frame: another peer's cache was touched");
         kani::cover!(r.is_ok() && nre > 0 && p0.state.get_prove_state().is_some(), "reorg state installed");
         kani::cover!(r.is_err(), "rejected");
+        kani::cover!(r.is_ok() && nre > 0 && prev_on_fork, "second fork switch of a peer whose previous state already carried reorg headers");
     }
 }
